@@ -55,7 +55,7 @@ def nargs(name, d, opt=None):
         return 1
     if name == "upd_coords_table":
         return opt["n"]
-    if name == "clear":
+    if name in ("clear", "clear_sub"):
         return 0
     if name == "populate2":
         return 5
@@ -220,6 +220,10 @@ def _apply(name, d, f, t, a, opt):
                 raise PairingError("after updateCoords the payload of the element moved to %r is not the one it had" % (new[k],))
     elif name == "clear":
         f.clear()
+    elif name == "clear_sub":
+        # clearing a *non-root* fiber (the last element's sub-fiber): what it held leaves the lower ranks, its equal-content siblings stay
+        if len(f.payloads) and isinstance(f.payloads[-1], Fiber):
+            f.payloads[-1].clear()
     elif name == "populate2":
         _apply_populate2(f, a)
     elif name == "populate_ref":
